@@ -42,17 +42,20 @@ SPECIAL_DOCS = [
 ]
 
 
-def tie_render(ctx: Ctx, n: int, **genkw) -> None:
+def tie_render(ctx: Ctx, n: int, extra_docs: list[str] | None = None, **genkw) -> None:
+    """`extra_docs`: documents of a property's own input families (rendered in one sampled spacing mode, like generated ones)"""
     from flowmark.formats.flowmark_markdown import ListSpacing, flowmark_markdown
     rng = ctx.rng
     docs = [(d, "special") for d in SPECIAL_DOCS] + [(d, "corpus") for d in corpus_docs()]
     for i in range(n):
         docs.append((mdgen.gen_document(rng, quotes=True, tags=(i % 2 == 0), html=True, hazards=(i % 3 == 0),
                                         clean=(i % 4 != 0), bold_headings=True, **genkw), "generated"))
+    # appended after the generated documents and given a fixed spacing mode, so the rng stream above is unchanged
+    docs += [(d, "family") for d in (extra_docs or [])]
     ops, reals, cases = [], [], []
     unser = 0
     for doc, kind in docs:
-        for sp in (list(ListSpacing) if kind != "generated" else [rng.choice(list(ListSpacing))]):
+        for sp in ([ListSpacing.preserve] if kind == "family" else list(ListSpacing) if kind != "generated" else [rng.choice(list(ListSpacing))]):
             m = flowmark_markdown(astser.symbolic_wrapper, sp)
             d = m.parse(doc.strip() + "\n")
             try:
@@ -73,5 +76,5 @@ def tie_render(ctx: Ctx, n: int, **genkw) -> None:
             bad += 1
             ctx.tie_broken("render", {"doc": doc, "list_spacing": sp}, got, real)
     ctx.obligation(f"tie render: Lean render model = MarkdownNormalizer (symbolic wrapper) on {len(cases)} ASTs "
-                   f"({len(SPECIAL_DOCS)} special + corpus ×3 spacing modes, {n} generated); {unser} not serialisable",
+                   f"({len(SPECIAL_DOCS)} special + corpus ×3 spacing modes, {n} generated{f', {len(extra_docs)} of the property families' if extra_docs else ''}); {unser} not serialisable",
                    "correspondence", bad == 0 and unser <= len(cases) // 20, f"{bad} disagreement(s), {unser} unserialisable")
